@@ -108,6 +108,8 @@ def extract(cfg):
     bdir = os.path.join(BUILD, cfg["name"])
     shutil.rmtree(bdir, ignore_errors=True)
     os.makedirs(bdir)
+    if cfg.get("native_only"):
+        return True, "", 0.0
     cmd = [os.path.join(BUILD, "cxx2c"), os.path.join(cfg["dir"], cfg.get("tu", "tu.cpp")), "-o", os.path.join(bdir, "gen")]
     for t in cfg["targets"]:
         cmd.append("--target=" + t)
